@@ -218,6 +218,13 @@ type Raft struct {
 	// read-only operation may only be confirmed by a round started after it was submitted.
 	heartbeatRound uint64
 
+	// Indicates that the apply loop is applying an operation to the state machine.
+	applying bool
+
+	// Indicates that a snapshot of the state machine is being taken or that the state
+	// machine is being restored from one. Operations are not applied meanwhile.
+	snapshotting bool
+
 	// Indicates that this node has won a prevote and has not yet held the
 	// election that the prevote permits.
 	electionPermitted bool
@@ -1509,8 +1516,21 @@ func (r *Raft) InstallSnapshot(
 		r.logger.Fatalf("failed to get snapshot file: error = %v", err)
 	}
 
+	// Wait until no operation is being applied to the state machine and no snapshot
+	// of it is being taken: the restored state must not be mixed with either.
+	for (r.applying || r.snapshotting) && r.state != Shutdown {
+		r.applyCond.Wait()
+	}
+	if r.state == Shutdown {
+		if err := snapshot.Close(); err != nil {
+			r.logger.Errorf("failed to close snapshot file: error = %v", err)
+		}
+		return nil
+	}
+
 	// Restore the state machine with the snapshot.
 	// This could take a while so it's probably best that the lock is released.
+	r.snapshotting = true
 	r.mu.Unlock()
 	r.logger.Warnf(
 		"restoring state machine with snapshot: lastIndex = %d, lastTerm = %d",
@@ -1524,6 +1544,8 @@ func (r *Raft) InstallSnapshot(
 		r.logger.Fatalf("failed to close snapshot file: error = %v", err)
 	}
 	r.mu.Lock()
+	r.snapshotting = false
+	r.applyCond.Broadcast()
 
 	if r.state == Shutdown {
 		return nil
@@ -1573,6 +1595,16 @@ func (r *Raft) snapshotLoop() {
 // only be taken if there is new state since the previous snapshot and there
 // is not a pending configuration change.
 func (r *Raft) takeSnapshot() {
+	// Wait until no operation is being applied to the state machine and no other
+	// snapshot is in progress, so that the state machine contains exactly the
+	// operations up to the last applied index.
+	for (r.applying || r.snapshotting) && r.state != Shutdown {
+		r.applyCond.Wait()
+	}
+	if r.state == Shutdown {
+		return
+	}
+
 	// There is nothing new to snapshot.
 	if r.lastApplied <= r.lastIncludedIndex {
 		return
@@ -1607,6 +1639,7 @@ func (r *Raft) takeSnapshot() {
 
 	// Take a snapshot of the state machine.
 	// It's best that the lock is not held here since this might take a while.
+	r.snapshotting = true
 	r.mu.Unlock()
 	if err := r.fsm.Snapshot(snapshot); err != nil {
 		r.logger.Fatalf("failed to take snapshot of state machine: error = %v", err)
@@ -1615,6 +1648,8 @@ func (r *Raft) takeSnapshot() {
 		r.logger.Fatalf("failed to close snapshot file: error = %v", err)
 	}
 	r.mu.Lock()
+	r.snapshotting = false
+	r.applyCond.Broadcast()
 
 	// It's possible a snapshot was installed and the log was compacted while the lock was released.
 	if lastAppliedEntry.Index <= r.lastIncludedIndex {
@@ -1811,6 +1846,14 @@ func (r *Raft) applyLoop() {
 		// Scan the log starting at the entry following the last applied entry
 		// and apply any entries that have been committed.
 		for r.lastApplied < r.commitIndex && r.state != Shutdown {
+			// The state machine must not change while a snapshot of it is being taken
+			// or while it is being restored: a snapshot contains exactly the operations
+			// up to its last included index.
+			if r.snapshotting {
+				r.applyCond.Wait()
+				continue
+			}
+
 			entry, err := r.log.GetEntry(r.lastApplied + 1)
 			if err != nil {
 				r.logger.Fatalf("failed to get entry from log: error = %v", err)
@@ -1836,6 +1879,7 @@ func (r *Raft) applyLoop() {
 				}
 				lastApplied := r.lastApplied
 
+				r.applying = true
 				r.mu.Unlock()
 				response := OperationResponse{
 					Operation:           operation,
@@ -1849,10 +1893,12 @@ func (r *Raft) applyLoop() {
 					operation.OperationType.String(),
 				)
 				r.mu.Lock()
+				r.applying = false
 
 				// It's possible a snapshot was installed while the lock was released.
 				// It's not safe to increment the last applied index if it has changed.
 				if r.lastApplied != lastApplied {
+					r.applyCond.Broadcast()
 					continue
 				}
 			default:
@@ -1860,6 +1906,10 @@ func (r *Raft) applyLoop() {
 			}
 
 			r.lastApplied++
+			if entry.EntryType == OperationEntry {
+				// Anyone waiting for the operation to be applied may continue.
+				r.applyCond.Broadcast()
+			}
 			if r.fsm.NeedSnapshot(r.log.Size()) {
 				r.snapshotCond.Signal()
 			}
